@@ -5,6 +5,7 @@ import (
 	"math/big"
 	"math/rand"
 	"strings"
+	"sync"
 
 	"github.com/MinterTeam/minter-go-node/coreV2/check"
 	"github.com/MinterTeam/minter-go-node/coreV2/transaction"
@@ -376,5 +377,97 @@ func init() {
 			return out
 		},
 		ExpectProbes: []string{"c04_accepted", "c04_dup_rejected", "c04_bad_nonce_rejected"},
+	})
+}
+
+// ---------------- C06 ----------------
+
+// MonC06 passes every transaction to the real CheckTx on the same mid-block state immediately before
+// DeliverTx and compares acceptance. CheckTx-only rejections (gas-price floor, one tx per sender in the
+// mempool) are excluded as the statement says; for those the same executor is called directly on the
+// check state without the mempool rules so that the pair is still compared.
+type MonC06 struct {
+	NopMonitor
+	check     uint32
+	checkLog  string
+	excluded  bool
+	classes   map[string]bool
+}
+
+func (m *MonC06) Genesis(w *World) { m.classes = map[string]bool{} }
+
+func (m *MonC06) BeforeTx(w *World, b *BlockCtx, tm *TxMeta) {
+	r, cerr := w.Node.Check(tm.Bytes)
+	if cerr != nil {
+		w.Report("C07", "no-panic", "CheckTx@"+cerr.Site, fmt.Sprintf("%v\nop=%s\n%s", cerr.Error(), opJSON(tm.Op), trimStack(cerr.Stack)), b.Height)
+		return
+	}
+	m.check, m.checkLog, m.excluded = r.Code, r.Log, false
+	if r.Code == 113 || r.Code == 114 {
+		m.excluded = true
+		w.Probe("c06_checktx_only_rejection")
+		var resp transaction.Response
+		cerr := w.Node.call("CheckTx(direct)", func() {
+			resp = txDecoder.RunTx(w.Node.App.CurrentState(), tm.Bytes, nil, w.Node.App.Height()+1, &sync.Map{}, 0, true)
+		})
+		if cerr != nil {
+			w.Report("C07", "no-panic", "CheckTx@"+cerr.Site, cerr.Error(), b.Height)
+			return
+		}
+		m.check, m.checkLog = resp.Code, resp.Log
+	}
+}
+
+func (m *MonC06) AfterTx(w *World, b *BlockCtx, tm *TxMeta, r abci.ResponseDeliverTx) {
+	if (m.check == 0) != (r.Code == 0) {
+		dir := "check-accepts/deliver-rejects"
+		if m.check != 0 {
+			dir = "check-rejects/deliver-accepts"
+		}
+		w.Report("C06", "check-equals-deliver", dir+":"+tm.Kind, fmt.Sprintf("height %d %s (op %s): CheckTx code %d (%q), DeliverTx immediately afterwards code %d (%q); gas coin %d gas price %d",
+			b.Height, tm.Kind, opJSON(tm.Op), m.check, m.checkLog, r.Code, r.Log, tm.GasCoin, tm.GasPrice), b.Height)
+		return
+	}
+	m.classes[fmt.Sprintf("%s/%d", tm.Kind, r.Code)] = true
+	w.Probe("c06_pair_compared")
+	if tm.GasCoin != 0 {
+		w.Probe("c06_custom_gas_coin")
+	}
+}
+
+func init() {
+	register(&PropSpec{ID: "C06", Level: "exploration",
+		Rule: "every delivered transaction is first given to the real Blockchain.CheckTx on the same mid-block state, then immediately to DeliverTx; acceptance must agree (gas-price floor and one-per-sender rejections excluded and re-checked through the executor without mempool rules); workload biased to swaps through the commission pool, custom gas coins, limits at the computed amount, order-book interaction; distinct non-trivial case = distinct (tx kind, result code) pair compared",
+		Make: func(r *rand.Rand, seed int64, chain int, tier string) *Scenario {
+			p := txProfile()
+			p.PGasCustom = 0.5
+			p.PZeroGP = 0
+			p.PGarbage, p.PDup = 0.01, 0.03
+			p.TxMax = 7
+			for _, k := range []string{"sellpool", "buypool", "sellallpool", "addorder", "remorder", "sell", "buy", "sellall", "addliq", "remliq"} {
+				p.W[k] = 10
+			}
+			return baseScenario("C06", r, seed, chain, tier, p, func(g *GenCfg, n *NodeCfg) {
+				g.NPool = 2 + r.Intn(4)
+				g.NCoin = 1 + r.Intn(3)
+				if r.Intn(4) == 0 {
+					g.PriceCoin = true
+				}
+			})
+		},
+		Monitors: func(sc *Scenario) []Monitor { return []Monitor{&MonC06{}} },
+		Distinct: func(w *World) []string {
+			for _, m := range w.Monitors {
+				if c, ok := m.(*MonC06); ok {
+					var out []string
+					for k := range c.classes {
+						out = append(out, k)
+					}
+					return out
+				}
+			}
+			return nil
+		},
+		ExpectProbes: []string{"c06_pair_compared", "c06_custom_gas_coin", "c06_checktx_only_rejection"},
 	})
 }
